@@ -117,9 +117,18 @@ class Arrays:
         self.phase = None           # 'decoy' | 'real'
         self.cur_op = 0
         self.nth = 0
+        self.fresh = []
+        self.recycled = 0
 
     def at_op(self, i):
         self.cur_op, self.nth = i, 0
+
+    def recycle(self):
+        """'recycle' world: the buffers handed over during the last op are overwritten with other numbers"""
+        for a in self.fresh:
+            a[...] = a * 1.5 + 0.25
+            self.recycled += 1
+        self.fresh = []
 
     def __call__(self, v):
         if not isinstance(v, np.ndarray):
@@ -143,6 +152,10 @@ class Arrays:
             self.given.append((a, a.tobytes(), a.dtype.str, a.shape))
             return a
         a = np.array(v, dtype=float)
+        if lay == 'recycle':
+            # the user recycles every buffer right after the call that received it (see recycle())
+            self.fresh.append(a)
+            return a
         if lay == 'F':
             a = np.asfortranarray(a)
         elif lay == 'strided':
@@ -236,6 +249,8 @@ def run_world(ops, wc, keep=False):
                 for i, op in enumerate(ops):
                     arrs.at_op(i)
                     it.step(op)
+                    if arrs.layout == 'recycle':
+                        arrs.recycle()
                     if wc.get('gc') == 'collect':
                         junk = [bytearray(32 + 16 * (k % 7)) for k in range(40)]
                         del junk
@@ -355,6 +370,12 @@ def gen_misc(rng):
     Qn = [[-v for v in row] for row in Q]
     cons.append(['>=', ['quad', ['v', 'x'], Qn], ['c', -25.0]])
     cons.append(['<=', ['+', ['sum', ['*', ['c', mat(1, n)[0]], ['v', 'x']]], ['@', ['c', [gen.nz2(rng), gen.nz2(rng)]], ['v', 'z']]], ['c', 30.0]])
+    # atoms whose PARAMETERS are user arrays: exponents of power, weights of gmean, scales of pexp / plog
+    xs = ['+', ['v', 'x'], ['c', 4.0]]            # positive on the box of x
+    cons.append(['<=', ['f', 'power', xs, ['c', [float(rng.choice([2, 3])) for _ in range(n)]], ['c', [1.0] * n]], ['c', 400.0]])
+    cons.append(['>=', ['f', 'gmean', xs, ['c', [float(rng.randint(1, 3)) for _ in range(n)]]], ['c', 0.5]])
+    cons.append(['<=', ['f', 'pexp', ['v', 'x'], ['c', [gen.r2(rng, 0.5, 2) for _ in range(n)]]], ['c', 60.0]])
+    cons.append(['>=', ['f', 'plog', xs, ['c', [gen.r2(rng, 0.5, 2) for _ in range(n)]]], ['c', -5.0]])
     for i, c in enumerate(cons):
         ops.append({'op': 'cons', 'id': 'k%d' % i, 'e': c})
     ops.append({'op': 'st', 'm': 'm', 'ids': ['k%d' % i for i in range(len(cons))]})
@@ -411,6 +432,9 @@ def gen_case(seed, cfg):
         {'name': 'W6', 'where': 'here', 'layout': 'C', 'rng_seed': 0, 'epoch': 1.7e9, 'dual_first': True},
         # the same array objects served an earlier build with other numbers and were refreshed in place (bit-wise comparison)
         {'name': 'W8', 'where': 'here', 'layout': 'reuse', 'rng_seed': 0, 'epoch': 1.7e9},
+        # every user array is overwritten with other numbers right after the call that received it: what was declared is
+        # what the arrays held at the time of the call (bit-wise comparison)
+        {'name': 'W9', 'where': 'here', 'layout': 'recycle', 'rng_seed': 0, 'epoch': 1.7e9},
     ]
     # repetition sequence (iv)
     from machines.hist import FAULTS_BY_ENGINE
